@@ -67,7 +67,7 @@ def build_handles(t, blocks, nodes):
   if t['k'] == 'mf':
     dev = build.build_block_device(t['dev'], t['id']); blocks.append(dev)
     if t.get('ratios'):
-      return dk.TwoRatioMFDeviceSet(dev, list(t['flows']), [C.pf(x) for x in t['ratios']], t.get('ctype', 'eq'))
+      return dk.TwoRatioMFDeviceSet(dev, list(t['flows']), G.py_ratios(t), t.get('ctype', 'eq'))
     return dk.MFDeviceSet(dev, list(t['flows']))
   kids = [build_handles(c, blocks, nodes) for c in t['ch']]
   sb = None if t.get('sb') is None else np().array([[C.pf(a), C.pf(b)] for a, b in t['sb']])
@@ -78,6 +78,11 @@ def build_handles(t, blocks, nodes):
     obj = dk.DeviceSet(t['id'], kids, sb)
   nodes.append((t, obj))
   return obj
+
+
+def build_tree_x(t):
+  """the real objects from the description (like build.build_tree; ratios passed in the case's sequence form)."""
+  return build_handles(t, [], [])
 
 
 def same_cons(a, b):
@@ -159,6 +164,8 @@ class C04(Prop):
       if s['k'] == 'mf':
         h['mf'] += 1
         h['ratio'] += 1 if s.get('ratios') else 0
+        h['negative_ratio'] = h.get('negative_ratio', 0) + bool(s.get('ratios') and any(Fraction(x) < 0 for x in s['ratios']))
+        h['conduits>4'] = h.get('conduits>4', 0) + (len(s['flows']) > 4)
         h['mf_with_constraints'] += 1 if (s['dev'].get('cbs') or s['dev'].get('ucons')) else 0
         continue
       if s.get('sb') is None:
@@ -169,6 +176,9 @@ class C04(Prop):
       if s.get('sub'):
         h['sub'] += 1
         ls = s.get('labels', []); ids = G.fqids(s)
+        h['empty_label_list'] = h.get('empty_label_list', 0) + (not ls)
+        h['labels_differing_in_case_only'] = h.get('labels_differing_in_case_only', 0) + any(
+          l.lower() != l and any(q.lower().endswith(l.lower()) and not q.endswith(l) for q in ids) for l in ls) + 0
         h['labels_with_dot'] += any('.' in l for l in ls)
         h['labels_with_regex_chars'] += any(re.search(r'[()\[\]+.]', l) for l in ls)
         h['labels_whole_path'] += any(l in ids for l in ls)
@@ -182,7 +192,7 @@ class C04(Prop):
   def ops(self, case):
     t, n = case['tree'], case['n']
     self._count(case)
-    obj = build.build_tree(t)
+    obj = build_tree_x(t)
     ops = [Op({'op': 'tree.rows', 'tree': t, 'n': n}, lambda: obj.shape[0], TOL, 'rows')]
     if dup_affected(t):
       # known finding (duplicate qualified ids collapse in _labelled_sets): the model follows the documented
@@ -208,7 +218,7 @@ class C04(Prop):
       R = gen.tree_rows(s)
       sk = G.skeleton(s, n)
       try:
-        obj = build.build_tree(sk)
+        obj = build_tree_x(sk)
         cons = obj.constraints
         ids = [k for k, _ in obj.leaf_devices()]
       except Exception as e:
@@ -262,7 +272,7 @@ class C04(Prop):
     # (B) the real tree: all constraints hold <=> every atomic leaf's own exported constraints hold on its row
     #     AND every set's documented limits hold (children and sets simultaneously, every depth)
     try:
-      obj = build.build_tree(t)
+      obj = build_tree_x(t)
       cons = obj.constraints
       leaves = []
       r = 0
@@ -390,7 +400,7 @@ class C04(Prop):
     self.hist['histories'] = self.hist.get('histories', 0) + 1
     self.hist.setdefault('history_modes', {}); self.hist['history_modes'][mode] = self.hist['history_modes'].get(mode, 0) + 1
     after = [impl_cons(obj, S) for S in mats]
-    twin = build.build_tree(t2)
+    twin = build_tree_x(t2)
     want = [impl_cons(twin, S) for S in mats]
     for S, a, w_ in zip(mats, after, want):
       if not same_cons(a, w_):
